@@ -102,7 +102,8 @@ static ppointer body(ppointer a) {
 	tls_sequence(g);
 	if (g->he) g->he->finished = 1;
 	if (g->use_exit) p_uthread_exit(g->code);
-	return NULL;
+	/* "0 if its function simply returned" - whatever pointer the function returns (PUThreadFunc returns ppointer) */
+	return (g->work_us ^ g->code) & 1 ? (ppointer)g : (g->code & 2) ? (ppointer)(uintptr_t)1 : NULL;
 }
 
 static int wait_until(volatile int *flag_or_null, int (*pred)(void *), void *arg, int ms) { int t; (void)flag_or_null; for (t = 0; t < ms * 5; t++) { if (pred(arg)) return 1; usleep(200); } return pred(arg); }
